@@ -623,6 +623,13 @@ def Op.target : Op → Option Nat
   | .setMeta i _ _ => some i
   | .filter i _ _ => some i
   | .filtered _ _ _ => none
+  | .addVia i _ _ _ _ _ => some i
+  | .delItem i _ _ => some i
+  | .metaSet i _ _ _ => some i
+  | .metaClear i _ _ => some i
+  | .metaUpdate i _ _ _ => some i
+  | .clear i => some i
+  | .sortTree i _ _ _ => some i
 
 namespace World
 
@@ -632,6 +639,16 @@ theorem setTree_other {w : World} {i j : Nat} {t : Tree} (h : i ≠ j) : (w.setT
 theorem put_other {w : World} {i j : Nat} {r : Tree × NodeId × Option Err} (h : i ≠ j) :
     (w.put i r).1.trees[j]? = w.trees[j]? :=
   List.getElem?_set_ne h
+
+theorem metaEdit_other {w : World} {i j : Nat} {n : NodeId}
+    {f : Option (List (String × String)) → Option (List (String × String))} (h : i ≠ j) :
+    (w.metaEdit i n f).1.trees[j]? = w.trees[j]? := by
+  unfold metaEdit
+  split
+  · rfl
+  · split
+    · rfl
+    · exact List.getElem?_set_ne h
 
 theorem append_other {w : World} {j : Nat} {tj t : Tree} (hj : w.trees[j]? = some tj) :
     (w.trees ++ [t])[j]? = some tj := by
